@@ -77,8 +77,9 @@ def argv_of(atoms):
 
 def expected(atoms, nvcc=False):
     d = [a["value"] for a in atoms if a["kind"] == "D"]
-    i = [a["value"] for a in atoms if a["kind"] == "I"]
-    s = [a["value"] for a in atoms if a["kind"] == "isystem"]
+    # an empty directory name (`-I ""`) is ignored, as compilers do
+    i = [a["value"] for a in atoms if a["kind"] == "I" and a["value"] != ""]
+    s = [a["value"] for a in atoms if a["kind"] == "isystem" and a["value"] != ""]
     f = [a["value"] for a in atoms if a["kind"] == "include"]
     return {"defines": d, "I": i, "isystem": s, "include_files": f}
 
@@ -106,13 +107,15 @@ OPENMP_COMPILERS = {"gcc", "g++", "clang", "clang++", "icx", "nvcc"}
 
 def judge(argv0, atoms):
     """-> None | (kind, expected, observed)"""
+    if any(a["tokens"] == ["-fopenmp=libomp"] for a in atoms) and os.path.basename(argv0) not in ("clang", "clang++"):
+        return None  # a clang spelling: other compilers reject it, so nothing is promised there
     exp = expected(atoms)
     obs = observe(argv0, argv_of(atoms))
     if isinstance(obs, tuple):
         return (f"exception:{obs[1]}", exp, f"{obs[1]}: {obs[2]}")
     base = os.path.basename(argv0)
     exp_def = exp["defines"] + IMPLICIT.get(base, [])
-    if base in OPENMP_COMPILERS and any(a["kind"] == "mode" for a in atoms):
+    if (base in OPENMP_COMPILERS and any(a["tokens"] == ["-fopenmp"] for a in atoms)) or (base in ("clang", "clang++") and any(a["tokens"] == ["-fopenmp=libomp"] for a in atoms)):
         exp_def = exp_def + ["_OPENMP"]
     if obs["defines"] != exp_def:
         return ("defines", exp_def, obs["defines"])
@@ -219,7 +222,8 @@ def vector_strategy():
     # of other compilers (-isystem-after, -include-pch) and are left out of the domain
     dash = st.one_of(st.builds(rec, st.sampled_from(["I", "isystem", "include"]), st.sampled_from(DASH_DIRS), st.just(False)), st.builds(rec, st.just("I"), st.sampled_from(DASH_DIRS), st.just(True)))
     o = st.sampled_from(UNMODELLED).map(unm)
-    mode = st.just({"kind": "mode", "tokens": ["-fopenmp"]})
+    mode = st.one_of(st.just({"kind": "mode", "tokens": ["-fopenmp"]}), st.just({"kind": "mode", "tokens": ["-fopenmp=libomp"]}),
+                     st.builds(rec, st.sampled_from(["I", "isystem"]), st.just(""), st.just(False)))
     atom = st.one_of(d, d, i, i, s, f, o, o, o, o, o, st.one_of(dash, o, o, o, o, o, o, o), st.one_of(mode, d, i, o))
     return st.tuples(st.sampled_from(COMPILERS), st.lists(atom, min_size=1, max_size=40))
 
